@@ -15,7 +15,9 @@ run_one() {
   mkdir -p "$dir/repo" "$dir/verif"
   rsync -a --exclude .git /repo/ "$dir/repo/"
   if ! (cd "$dir/repo" && patch -p1 -s < "/verif/$patch"); then echo "SELFTEST $name: patch does not apply"; return 1; fi
-  cp /verif/known_findings.json "$dir/verif/" 2>/dev/null
+  cp /verif/known_findings.json /verif/sweep_baseline.json "$dir/verif/" 2>/dev/null
+  cp -r /verif/bounded "$dir/verif/" 2>/dev/null
+  mkdir -p "$dir/verif/replay" && cp -r /verif/replay/templates "$dir/verif/replay/" 2>/dev/null
   out=$(/verif/bin/kvc check -property "$prop" -tier quick -repo "$dir/repo" -verif "$dir/verif" 2>&1); rc=$?
   obl=$(cat "$dir"/verif/replays/*.json 2>/dev/null | grep -o '"obligation": "[^"]*"' | tr '\n' ' ')
   rm -rf "$dir"
